@@ -277,6 +277,8 @@ def _gen_section(
             cap = r.between(1, p.max_array)
             if b < 8 and r.chance(1, 3):
                 cap = r.choice([9, 17, 40, 70])  # bit-packed arrays spanning several bytes
+            elif kind == "vararr" and r.chance(1, 10):
+                cap = r.choice([127, 128, 200, 254, 255, 256])  # capacities next to what a length prefix can announce
             if kind == "fixarr":
                 lines.append("%s[%d] %s" % (tn, cap, name))
             elif r.chance(1, 3):
